@@ -33,6 +33,23 @@ def assignToks : List (String × String) :=
 
 def sel (s : R) (n : Nat) : Nat := (s / 65536) % n
 
+def tnKw : List (List Tk) :=
+  [[("INT", "int")], [("UNSIGNED", "unsigned"), ("CHAR", "char")], [("LONG", "long"), ("LONG", "long")], [("VOID", "void")],
+   [("CONST", "const"), ("CHAR", "char")], [("DOUBLE", "double")], [("UNSIGNED", "unsigned")], [("SHORT", "short"), ("VOLATILE", "volatile")],
+   [("_BOOL", "_Bool")], [("SIGNED", "signed"), ("CONST", "const"), ("INT", "int")]]
+
+/-- a type name: type keywords / qualifiers, then up to two `*` with optional qualifiers -/
+def genTN (s : R) : TypeName.TN × R :=
+  let sp := pick tnKw s
+  let s1 := lcg s
+  let n := sel s1 3
+  let stars : List (List Tk) := (List.range n).map fun i =>
+    if sel (s1 + i * 7919) 4 == 0 then [pick [("CONST", "const"), ("VOLATILE", "volatile"), ("RESTRICT", "restrict")] (s1 + i)] else []
+  ({ specs := sp, stars := stars }, lcg s1)
+
+/-- an operand for `++` / `--` / `sizeof`: a unary-expression, so a cast gets parentheses -/
+def noCast (e : X) : X := if e.isCast then X.paren e else e
+
 /-- an expression derivable at level `lv` (`WFX lv`), of depth at most `fuel` -/
 def genX : Nat → Nat → R → X × R
   | 0, _, s => (if sel s 3 == 0 then (let c := pick consts (lcg s); X.const c.1 c.2.1 c.2.2) else X.id (pick ids (lcg s)), lcg (lcg s))
@@ -50,9 +67,12 @@ def genX : Nat → Nat → R → X × R
       | 7 => let r := genX f 14 s1; let a := genX f 0 r.2; (X.call r.1 a.1, a.2)
       | _ => (X.id (pick ids s1), lcg s1)
     else if lv == 13 then
-      match sel s 4 with
-      | 0 => let r := genX f 13 s1; let p := pick prefixToks r.2; (X.pre p.1 p.2 r.1, lcg r.2)
-      | 1 => let r := genX f 13 s1; (X.szof r.1, r.2)
+      match sel s 7 with
+      | 0 => let r := genX f 13 s1; let p := pick prefixToks r.2
+             (X.pre p.1 p.2 (if p.1 == "PLUSPLUS" || p.1 == "MINUSMINUS" then noCast r.1 else r.1), lcg r.2)
+      | 1 => let r := genX f 13 s1; (X.szof (noCast r.1), r.2)
+      | 2 => let t := genTN s1; let r := genX f 13 t.2; (X.cast t.1 r.1, r.2)
+      | 3 => let t := genTN s1; (X.szofT t.1, t.2)
       | _ => genX f 14 s1
     else if lv ≥ 3 then
       if sel s 2 == 0 then genX f 13 s1 else
